@@ -46,6 +46,11 @@ class BurstForwarder(TRXList):
 		# so let's precalculate its Tx frequency in advance
 		tx_freq = src_trx.get_tx_freq(rx_msg.fn)
 
+		# A transceiver that has not been tuned (yet) is not on the air:
+		# None would otherwise match the frequency of untuned receivers
+		if tx_freq is None:
+			return
+
 		if src_trx.rf_muted:
 			del rx_msg.burst # burst bits are omited
 			rx_msg.burst = None
